@@ -164,7 +164,7 @@ def make_input(rng: random.Random, n_refs: int = 2, n_qry: int = 8, ref_labels=(
                 x += 2000 + int(rng.expovariate(1 / 9000.))
                 coords.append(x)
         elif kind == "tiny":
-            coords = sorted(rng.sample(range(0, 30000), rng.choice([1, 2, 3])))
+            coords = sorted(rng.sample(range(0, 30000), rng.choice([1, 2, 3, 4, 5])))   # seed peaks but no scored segment
         else:
             raise ValueError(kind)
         if rng.random() < 0.35 and kind not in ("mirror", "tiny", "flankdup", "samestart"):
